@@ -252,33 +252,59 @@ theorem mutex_exclusive {y : Sys} (h : Reachable y) {p q : Nat} (hp : holds (y.p
 
 /-! ### one_renewal_per_cert -/
 
-/-- Whatever certificate is cached, in any reachable state of any schedule, its rotation task (same
-    CreatedTime, same ExpireTime) is in the queue with a good delay AND IS STILL PENDING: it has not been
-    started (`fired = false`), or its callback is running and has not yet reached its clear (`tCheck` /
-    `tClear`, after which the certificate is no longer cached).  So every certificate that is served has
-    a renewal that is still going to happen.  (No ghost state is involved in this statement.) -/
+/-- Whatever certificate is cached, in any reachable state of any schedule: its rotation task (same
+    CreatedTime, ExpireTime and key) is in the queue with a good delay AND IS STILL PENDING - not started
+    (`fired = false`) or its callback has not yet reached its clear (`tCheck` / `tClear`, after which the
+    certificate is no longer cached) - or the caller that stored it is between `SetWorkload(&item)` and
+    `PushDelayed` and will push it in its next step.  So every certificate that is served has a renewal
+    that is still going to happen; this depends on the ORDER store-then-push (a task pushed first could
+    run as a no-op before the store).  (No ghost counter is involved in this statement.) -/
 theorem cached_cert_has_rotation_scheduled {y : Sys} (h : Reachable y) {w : Item} (hw : y.st.workload = some w) :
-    ∃ e en, y.st.queue[e]? = some en ∧ en.created = w.created ∧ en.expire = w.expire ∧
+    (∃ e en, y.st.queue[e]? = some en ∧ en.created = w.created ∧ en.expire = w.expire ∧ en.key = w.key ∧
       (en.fired = false ∨ ∃ p, y.procs p = .tCheck e ∨ y.procs p = .tClear e) ∧ 0 ≤ en.delay ∧
-      (en.created ≤ en.expire → en.computedAt ≤ en.expire → en.computedAt + en.delay ≤ en.expire) := by
-  obtain ⟨e, en, hq, e1, e2, hp⟩ := (inv_reachable h).pendingTask w hw
-  have hs := (inv_reachable h).sched.1 en (List.mem_of_getElem? hq)
-  exact ⟨e, en, hq, e1, e2, hp, hs.1, hs.2⟩
+      (en.created ≤ en.expire → en.computedAt ≤ en.expire → en.computedAt + en.delay ≤ en.expire)) ∨
+    (∃ p res d c m, y.procs p = .gRegPush res w d c m ∧ 0 ≤ d ∧
+      (w.created ≤ w.expire → c ≤ w.expire → c + d ≤ w.expire)) := by
+  rcases (inv_reachable h).pendingTask w hw with ⟨e, en, hq, e1, e2, e3, hp⟩ | ⟨p, res, d, c, m, hp⟩
+  · have hs := (inv_reachable h).sched.1 en (List.mem_of_getElem? hq)
+    exact Or.inl ⟨e, en, hq, e1, e2, e3, hp, hs.1, hs.2⟩
+  · have hs := (inv_reachable h).sched.2 p
+    rw [hp] at hs
+    exact Or.inr ⟨p, res, d, c, m, hp, hs.1, hs.2⟩
+
+/-- While a caller is between its store and its push, the cache holds exactly its item unless the
+    cache was emptied since the store (any schedule). -/
+theorem store_then_push {y : Sys} (h : Reachable y) {p : Nat} {res : Res} {it : Item} {d c : Int} {m : Nat}
+    (hp : y.procs p = .gRegPush res it d c m) :
+    y.st.workload = some it ∨ (y.st.workload = none ∧ m < y.st.clears) :=
+  ((inv_reachable h).push p res it d c m hp).2
+
+/-- The task records whether its certificate was cached when it was pushed; it was, unless the cache
+    was emptied between the caller's store and its push. -/
+theorem push_sees_its_certificate {y : Sys} (h : Reachable y) {p : Nat} {res : Res} {it : Item} {d c : Int} {m : Nat}
+    (i : Input) (hp : y.procs p = .gRegPush res it d c m) :
+    (step y p i).st.queue = y.st.queue ++ [⟨it.created, d, i.now, it.expire, c, it.key, y.st.workload.isSome, false⟩] ∧
+    (y.st.workload.isSome = false → m < y.st.clears) := by
+  refine ⟨by simp [step, hp, pushState], fun hn => ?_⟩
+  rcases store_then_push h hp with h1 | h1
+  · rw [h1] at hn; simp at hn
+  · exact h1.2
 
 /-- Bookkeeping with the ghost counter `stores` (incremented by the storing step only, see `queue_step`):
-    the number of queue entries equals the number of store operations.  By itself this is a statement
-    about the ghost counter; its content is `queue_step` (the queue changes only in the storing step, by
-    exactly one entry for the stored item) and `cached_cert_has_rotation_scheduled`. -/
-theorem one_entry_per_store {y : Sys} (h : Reachable y) : y.st.queue.length = y.st.stores :=
+    queue entries + (1 if the mutex owner has stored and not yet pushed) = store operations.  By itself a
+    statement about the ghost counter; its content is `queue_step` and `cached_cert_has_rotation_scheduled`. -/
+theorem one_entry_per_store {y : Sys} (h : Reachable y) : y.st.queue.length + pendingPush y = y.st.stores :=
   (inv_reachable h).queue
 
-/-- The queue grows only in the step that stores an item, by exactly the entry of that item. -/
+/-- The queue grows only in the push step, by exactly the entry of the item the same caller stored in
+    its previous step; `stores` grows only in that store step. -/
 theorem queue_step (y : Sys) (p : Nat) (i : Input) :
     ((step y p i).st.queue = y.st.queue ∧ (step y p i).st.stores = y.st.stores) ∨
     (∃ res it d c, y.procs p = .gRegStore res it d c ∧ (step y p i).st.workload = some it ∧
-      (step y p i).st.stores = y.st.stores + 1 ∧
-      (step y p i).st.queue = y.st.queue ++ [{ created := it.created, delay := d, pushedAt := i.now,
-                                               expire := it.expire, computedAt := c }]) := by
+      (step y p i).st.stores = y.st.stores + 1 ∧ (step y p i).st.queue = y.st.queue ∧
+      (step y p i).procs p = .gRegPush res it d c y.st.clears) ∨
+    (∃ res it d c m, y.procs p = .gRegPush res it d c m ∧ (step y p i).st.stores = y.st.stores ∧
+      (step y p i).st.queue = y.st.queue ++ [⟨it.created, d, i.now, it.expire, c, it.key, y.st.workload.isSome, false⟩]) := by
   unfold step
   simp only [finish]
   split
@@ -332,7 +358,7 @@ theorem timer_clear_then_notify {y : Sys} {p e : Nat} (i : Input) (hp : y.procs 
 /-- A `default` callback is only ever produced by those two notify steps (GenerateSecret announces
     `ROOTCA` only). -/
 theorem workload_event_only_from_notify (y : Sys) (p : Nat) (i : Input) :
-    (step y p i).st.events = y.st.events ∨ (step y p i).st.events = y.st.events ++ [Ev.rootca] ∨
+    (step y p i).st.events = y.st.events ∨ (∃ b, (step y p i).st.events = y.st.events ++ [Ev.rootca b]) ∨
     (((∃ e m, y.procs p = .tNotify e m) ∨ ∃ m, y.procs p = .uNotify m) ∧
       (step y p i).st.events = y.st.events ++ [Ev.workload y.st.workload.isNone]) := by
   unfold step
@@ -341,6 +367,75 @@ theorem workload_event_only_from_notify (y : Sys) (p : Nat) (i : Input) :
   all_goals (repeat' split)
   all_goals (simp_all [clearWorkload, notifyWorkload, afterRegState])
   all_goals (try (split <;> simp_all))
+
+/-! #### "Stale callbacks are no-ops" needs distinct CreatedTime values
+
+The callback compares `CreatedTime` only.  The model's clock input is unconstrained, so two CA responses
+may carry the same `CreatedTime` (in Go: `time.Time ==` on values of `time.Now()` incl. the monotonic
+reading, taken at least a key generation apart - assumed distinct, not proved).  Distinctness is an explicit
+hypothesis here; without it a task can clear a certificate it was not scheduled for. -/
+
+/-- No queued task shares its CreatedTime with a cached certificate it was not scheduled for. -/
+def DistinctCreated (y : Sys) : Prop :=
+  ∀ (e : Nat) (en : Entry) (w : Item),
+    y.st.queue[e]? = some en → y.st.workload = some w → en.created = w.created → en.key = w.key
+
+/-- Under that hypothesis a callback reaches its clear only if the cached certificate is the very one it
+    was scheduled for (same key id); any other task ends without touching anything. -/
+theorem timer_clears_only_own_cert {y : Sys} {p e : Nat} (i : Input) (hd : DistinctCreated y) (hp : y.procs p = .tCheck e) :
+    ((step y p i).procs p = .tClear e ∧ ∃ en c, y.st.queue[e]? = some en ∧ y.st.workload = some c ∧ en.key = c.key) ∨
+    ((step y p i).procs p = .tDone e false ∧ (step y p i).st = y.st) := by
+  rcases timer_clears_only_own i hp with ⟨h1, _, en, c, hq, hw, hc⟩ | h2
+  · exact Or.inl ⟨h1, en, c, hq, hw, hd e en c hq hw hc.symm⟩
+  · exact Or.inr h2
+
+private def okAt (now : Int) : Input := { ca := .ok 3600000000000 0 [], now := now }
+
+/-- Without it: two certificates issued at the same clock value, a bundle update in between; the task of
+    certificate 0 clears certificate 1. -/
+theorem stale_task_clears_other_witness :
+    let y0 := seqOp (Sys.init ⟨1, 2⟩ ⟨0, 1⟩) 0 (.gen .workload) (okAt 5)
+    let y1 := seqOp y0 1 (.update [2]) {}
+    let y2 := seqOp y1 2 (.gen .workload) (okAt 5)
+    let y3 := seqOp y2 3 (.timer 0) {}
+    ¬ DistinctCreated y2 ∧ (y2.st.workload.map (·.key)) = some 1 ∧ (y2.st.queue[0]?.map (·.key)) = some 0 ∧
+    y3.procs 3 = .tDone 0 true ∧ y3.st.workload = none := by
+  refine ⟨fun hd => ?_, by decide, by decide, by decide, by decide⟩
+  have := hd 0 ⟨5, 1800000000000, 5, 3600000000005, 5, 0, true, false⟩
+    ⟨1, 1, [0], 5, 3600000000005⟩ (by decide) (by decide) rfl
+  simp at this
+
+/-! #### Strictness at the level of the system
+
+The configured ratio and jitter bound never change; when the jitter value drawn for a registerSecret call
+is admissible for the CONFIGURED bound (`JitterOk y.st.jitter i.jit` - the step itself accepts any value,
+as `rand` is an input) and the side condition of `rotate_strictly_before_expiry` holds for the configured
+values, the delay that is about to be stored and pushed is strictly before the expiry. -/
+
+theorem step_config (y : Sys) (p : Nat) (i : Input) :
+    (step y p i).st.ratio = y.st.ratio ∧ (step y p i).st.jitter = y.st.jitter := by
+  unfold step
+  simp only [finish]
+  split
+  all_goals (repeat' split)
+  all_goals (simp [clearWorkload, notifyWorkload, pushState])
+
+theorem scheduled_strictly_before_expiry_step {y : Sys} {p : Nat} {res : Res} {it : Item} (i : Input)
+    (hp : y.procs p = .gRegCheck res it) (hw : y.st.workload = none)
+    (hr : y.st.ratio.Wf) (hJ : y.st.jitter.Wf) (hj : i.jit.Wf) (hjit : JitterOk y.st.jitter i.jit)
+    (hL : it.created ≤ it.expire) (hside : 1 ≤ grace y.st.ratio y.st.jitter.neg (it.expire - it.created))
+    (hnow : i.now < it.expire) :
+    ∃ d, (step y p i).procs p = .gRegStore res it d i.now ∧ 0 ≤ d ∧ i.now + d < it.expire := by
+  refine ⟨rotateDelay it.created it.expire i.now y.st.ratio i.jit, by simp [step, hp, hw], delay_nonneg _ _ _ _ _, ?_⟩
+  exact rotate_strictly_before_expiry hr hJ hj hjit hL hside (Or.inr hnow)
+
+/-- The constraint is needed: configured ratio 1/2 and jitter bound 0, but a drawn value of -1/2 (not
+    admissible) schedules the rotation exactly at expiry. -/
+theorem unconstrained_jitter_witness :
+    let y0 := Sys.init ⟨1, 2⟩ ⟨0, 1⟩
+    let y := seqOp y0 0 (.gen .workload) { ca := .ok 1000 0 [], now := 0, jit := ⟨-1, 2⟩ }
+    ¬ JitterOk y0.st.jitter ⟨-1, 2⟩ ∧ (y.st.queue[0]?.map fun en => (en.delay, en.expire)) = some (1000, 1000) := by
+  decide
 
 /-- A queue entry is run at most once: starting it marks it, a marked entry cannot be started. -/
 theorem timer_runs_once {y : Sys} {p e : Nat} {en : Entry} (hq : y.st.queue[e]? = some en) (hf : en.fired = true)
@@ -430,19 +525,32 @@ theorem step_regcheck_empty {y : Sys} {p : Nat} {res : Res} {it : Item} (i : Inp
       { y with procs := upd y.procs p (.gRegStore res it (rotateDelay it.created it.expire i.now y.st.ratio i.jit) i.now) } := by
   simp [step, h, hw]
 
-/-- `SetWorkload(&item)` + `PushDelayed`. -/
-def storeState (s : State) (it : Item) (d c now : Int) : State :=
-  { s with workload := some it, stores := s.stores + 1,
-           queue := s.queue ++ [{ created := it.created, delay := d, pushedAt := now, expire := it.expire, computedAt := c }] }
-
 theorem step_regstore {y : Sys} {p : Nat} {res : Res} {it : Item} {d c : Int} (i : Input)
     (h : y.procs p = .gRegStore res it d c) :
     step y p i =
-      { y with st := storeState y.st it d c i.now, procs := upd y.procs p (.gAfterReg res it) } := by
-  simp [step, h, storeState]
+      { y with st := { y.st with workload := some it, stores := y.st.stores + 1 },
+               procs := upd y.procs p (.gRegPush res it d c y.st.clears) } := by
+  simp [step, h]
 
-theorem step_afterreg {y : Sys} {p : Nat} {res : Res} {it : Item} (i : Input) (h : y.procs p = .gAfterReg res it) :
-    step y p i = { y with st := afterRegState y.st it, procs := upd y.procs p (.gUnlock (afterRegRet y.st res it)) } := by
+theorem step_regpush {y : Sys} {p : Nat} {res : Res} {it : Item} {d c : Int} {m : Nat} (i : Input)
+    (h : y.procs p = .gRegPush res it d c m) :
+    step y p i = { y with st := pushState y.st it d c i.now, procs := upd y.procs p (.gAfterReg res it) } := by
+  simp [step, h]
+
+theorem step_afterreg_same {y : Sys} {p : Nat} {res : Res} {it : Item} (i : Input) (h : y.procs p = .gAfterReg res it)
+    (he : y.st.certRoot = it.root) :
+    step y p i = { y with procs := upd y.procs p (.gUnlock (afterRegRet y.st res it)) } := by
+  simp [step, h, he]
+
+theorem step_afterreg_diff {y : Sys} {p : Nat} {res : Res} {it : Item} (i : Input) (h : y.procs p = .gAfterReg res it)
+    (hne : y.st.certRoot ≠ it.root) :
+    step y p i = { y with st := { y.st with certRoot := it.root }, procs := upd y.procs p (.gNotifyRoot res it) } := by
+  simp [step, h, hne]
+
+theorem step_notifyroot {y : Sys} {p : Nat} {res : Res} {it : Item} (i : Input) (h : y.procs p = .gNotifyRoot res it) :
+    step y p i =
+      { y with st := { y.st with events := y.st.events ++ [Ev.rootca (decide (y.st.certRoot = it.root))] },
+               procs := upd y.procs p (.gUnlock (afterRegRet y.st res it)) } := by
   simp [step, h]
 
 theorem step_unlock {y : Sys} {p : Nat} {r : Ret} (i : Input) (h : y.procs p = .gUnlock r) :
@@ -503,8 +611,8 @@ theorem gen_miss_ok {y : Sys} {p : Nat} (res : Res) (i : Input) {ttl : Int} {sg 
     let s1 : State := { y.st with
       workload := some it, caCalls := y.st.caCalls + 1, okSinceClear := y.st.okSinceClear + 1,
       stores := y.st.stores + 1,
-      queue := y.st.queue ++ [{ created := it.created, delay := rotateDelay it.created it.expire i.now y.st.ratio i.jit,
-                                pushedAt := i.now, expire := it.expire, computedAt := i.now }] }
+      queue := y.st.queue ++ [⟨it.created, rotateDelay it.created it.expire i.now y.st.ratio i.jit, i.now, it.expire,
+                                i.now, it.key, true, false⟩] }
     (seqOp y p (.gen res) i).st = afterRegState s1 it ∧
     (seqOp y p (.gen res) i).procs p = .gDone (afterRegRet s1 res it) := by
   obtain ⟨hp, hm⟩ := hq
@@ -517,15 +625,28 @@ theorem gen_miss_ok {y : Sys} {p : Nat} (res : Res) (i : Input) {ttl : Int} {sg 
   rw [stepN_succ, step_regcheck_empty (res := res) (it := it) i (by simp [it, newItem]) (by simpa using hw)]
   rw [stepN_succ, step_regstore (res := res) (it := it) (d := rotateDelay it.created it.expire i.now y.st.ratio i.jit)
     (c := i.now) i (by simp)]
-  rw [stepN_succ, step_afterreg (res := res) (it := it) i (by simp)]
-  rw [stepN_succ, step_unlock i (by simp; rfl)]
-  rw [stepN_done i (by simp; rfl)]
-  constructor
-  · simp only [storeState, s1]
-    unfold afterRegState
-    split <;> simp_all
-  · simp only [upd_same, storeState, s1]
-    congr 1
+  rw [stepN_succ, step_regpush (res := res) (it := it) (d := rotateDelay it.created it.expire i.now y.st.ratio i.jit)
+    (c := i.now) (m := y.st.clears) i (by simp)]
+  by_cases he : y.st.certRoot = it.root
+  · rw [stepN_succ, step_afterreg_same (res := res) (it := it) i (by simp) (by simpa using he)]
+    rw [stepN_succ, step_unlock i (by simp; rfl)]
+    rw [stepN_done i (by simp; rfl)]
+    constructor
+    · simp only [pushState, s1]
+      unfold afterRegState
+      simp [he, hm]
+    · simp only [upd_same, pushState, s1]
+      congr 1
+  · rw [stepN_succ, step_afterreg_diff (res := res) (it := it) i (by simp) (by simpa using he)]
+    rw [stepN_succ, step_notifyroot (res := res) (it := it) i (by simp)]
+    rw [stepN_succ, step_unlock i (by simp; rfl)]
+    rw [stepN_done i (by simp; rfl)]
+    constructor
+    · simp only [pushState, s1]
+      unfold afterRegState
+      simp [he, hm]
+    · simp only [upd_same, pushState, s1]
+      congr 1
 
 /-- **failure_not_sticky**: after a failed attempt the very next request talks to the CA again and,
     if the CA answers, succeeds with a fresh pair. -/
@@ -564,25 +685,52 @@ theorem ca_error_step {y : Sys} {p : Nat} {res : Res} (i : Input) (hp : y.procs 
 
 /-! ### root_change_announced -/
 
-/-- A CA response whose root differs from the recorded one is recorded and announced with
-    `OnSecretUpdate(ROOTCA)`, in the step before the mutex is released and the call returns -
-    whichever resource was requested. -/
-theorem root_change_announced_step {y : Sys} {p : Nat} {res : Res} {it : Item} (i : Input)
+/-- A CA response whose root differs from the recorded one: first the new root is recorded (`SetRoot`),
+    then - in the next step, before the mutex is released and the call returns - `OnSecretUpdate(ROOTCA)`
+    is called, whichever resource was requested. -/
+theorem root_change_recorded_step {y : Sys} {p : Nat} {res : Res} {it : Item} (i : Input)
     (hp : y.procs p = .gAfterReg res it) (hne : y.st.certRoot ≠ it.root) :
-    (step y p i).st.events = y.st.events ++ [Ev.rootca] ∧ (step y p i).st.certRoot = it.root ∧
+    (step y p i).st.events = y.st.events ∧ (step y p i).st.certRoot = it.root ∧
+    (step y p i).procs p = .gNotifyRoot res it := by
+  simp [step, hp, hne]
+
+/-- ... and in EVERY reachable state the callback is made with `certRoot` already holding the announced
+    root (only the owner of generateMutex writes it): the event carries `updated = true`. -/
+theorem root_change_announced_step {y : Sys} (h : Reachable y) {p : Nat} {res : Res} {it : Item} (i : Input)
+    (hp : y.procs p = .gNotifyRoot res it) :
+    (step y p i).st.events = y.st.events ++ [Ev.rootca true] ∧ y.st.certRoot = it.root ∧
     ∃ r, (step y p i).procs p = .gUnlock r := by
-  simp [step, hp, afterRegState, hne]
+  have hr := (inv_reachable h).rootNotify p res it hp
+  simp [step, hp, hr]
 
 theorem root_unchanged_silent_step {y : Sys} {p : Nat} {res : Res} {it : Item} (i : Input)
     (hp : y.procs p = .gAfterReg res it) (he : y.st.certRoot = it.root) : (step y p i).st = y.st := by
-  simp [step, hp, afterRegState, he]
+  simp [step, hp, he]
+
+/-- The `ROOTCA` callback of UpdateConfigTrustBundle, in every reachable state: the event records whether
+    configTrustBundle holds the announced bundle at that instant, and it does unless ANOTHER update
+    stored a different bundle after this one's store - a subscriber re-requesting ROOTCA from the callback
+    never merges the anchors that were configured before this update. -/
+theorem bundle_event_after_store {y : Sys} (h : Reachable y) {p : Nat} {b : List Nat} {m : Nat} (i : Input)
+    (hp : y.procs p = .uNotifyRoot b m) :
+    (step y p i).st.events = y.st.events ++ [Ev.rootca (decide (y.st.cfg = b))] ∧
+    (y.st.cfg ≠ b → m < y.st.cfgWrites) := by
+  have hn := (inv_reachable h).cfgNotify p b m hp
+  exact ⟨by simp [step, hp], hn.2⟩
+
+/-- The store of UpdateConfigTrustBundle comes first and is silent. -/
+theorem bundle_store_then_notify {y : Sys} {p : Nat} {b : List Nat} (i : Input) (hp : y.procs p = .uSet b)
+    (hne : y.st.cfg ≠ b) :
+    (step y p i).st.cfg = b ∧ (step y p i).st.events = y.st.events ∧
+    (step y p i).procs p = .uNotifyRoot b (y.st.cfgWrites + 1) := by
+  simp [step, hp, hne]
 
 /-- Sequential form: a request that misses the cache and obtains a response with a different root
     emits exactly one `ROOTCA` callback during the call. -/
 theorem root_change_announced {y : Sys} {p : Nat} (res : Res) (i : Input) {ttl : Int} {sg : Nat} {b : List Nat}
     (hq : Quiet y p) (hw : y.st.workload = none) (hca : i.ca = .ok ttl sg b)
     (hne : y.st.certRoot ≠ (newItem y.st i.now ttl sg b).root) :
-    (seqOp y p (.gen res) i).st.events = y.st.events ++ [Ev.rootca] ∧
+    (seqOp y p (.gen res) i).st.events = y.st.events ++ [Ev.rootca true] ∧
     (seqOp y p (.gen res) i).st.certRoot = (newItem y.st i.now ttl sg b).root := by
   have h := gen_miss_ok res i hq hw hca
   simp only at h
@@ -597,40 +745,55 @@ theorem root_change_announced_witness_unfixed :
       (afterRegStateUnfixed s .root it).events = s.events ∧ (afterRegStateUnfixed s .root it).certRoot = s.certRoot :=
   ⟨{ certRoot := [0] }, { key := 1, cert := 1, root := [1], created := 0, expire := 1 }, by decide, rfl, rfl⟩
 
+/-- `sc.configTrustBundle = trustBundle`. -/
+def bundleStored (s : State) (b : List Nat) : State := { s with cfg := b, cfgWrites := s.cfgWrites + 1 }
+
+/-- `OnSecretUpdate(ROOTCA)` with the announced value in place. -/
+def bundleAnnounced (s : State) : State := { s with events := s.events ++ [Ev.rootca true] }
+
 /-- UpdateConfigTrustBundle with a different bundle: stores it, notifies ROOTCA, then empties the
     cache and notifies `default`; with the same bundle nothing happens. -/
 theorem update_bundle_changed {y : Sys} {p : Nat} (b : List Nat) (i : Input) (hp : y.procs p = .idle) (hne : y.st.cfg ≠ b) :
-    (seqOp y p (.update b) i).st =
-      notifyWorkload (clearWorkload { y.st with cfg := b, events := y.st.events ++ [Ev.rootca] }) ∧
+    (seqOp y p (.update b) i).st = notifyWorkload (clearWorkload (bundleAnnounced (bundleStored y.st b))) ∧
     (seqOp y p (.update b) i).procs p = .uDone true := by
   unfold seqOp runAlone
   have e0 : spawn y p (.update b) = { y with procs := upd y.procs p (.uSet b) } := by simp [spawn, hp]
   rw [e0, stepN_succ]
   have e1 : step { y with procs := upd y.procs p (.uSet b) } p i =
-      { y with st := { y.st with cfg := b, events := y.st.events ++ [Ev.rootca] }, procs := upd (upd y.procs p (.uSet b)) p .uClear } := by
-    simp [step, hne]
+      { y with st := bundleStored y.st b,
+               procs := upd (upd y.procs p (.uSet b)) p (.uNotifyRoot b (y.st.cfgWrites + 1)) } := by
+    simp [step, hne, bundleStored]
   rw [e1, stepN_succ]
-  have e2 : step { y with st := { y.st with cfg := b, events := y.st.events ++ [Ev.rootca] },
-                          procs := upd (upd y.procs p (.uSet b)) p .uClear } p i =
-      { y with st := clearWorkload { y.st with cfg := b, events := y.st.events ++ [Ev.rootca] },
-               procs := upd (upd (upd y.procs p (.uSet b)) p .uClear) p (.uNotify y.st.stores) } := by
-    simp [step]
+  have e1' : step { y with st := bundleStored y.st b,
+                           procs := upd (upd y.procs p (.uSet b)) p (.uNotifyRoot b (y.st.cfgWrites + 1)) } p i =
+      { y with st := bundleAnnounced (bundleStored y.st b),
+               procs := upd (upd (upd y.procs p (.uSet b)) p (.uNotifyRoot b (y.st.cfgWrites + 1))) p .uClear } := by
+    simp [step, bundleStored, bundleAnnounced]
+  rw [e1', stepN_succ]
+  have e2 : step { y with st := bundleAnnounced (bundleStored y.st b),
+                          procs := upd (upd (upd y.procs p (.uSet b)) p (.uNotifyRoot b (y.st.cfgWrites + 1))) p .uClear } p i =
+      { y with st := clearWorkload (bundleAnnounced (bundleStored y.st b)),
+               procs := upd (upd (upd (upd y.procs p (.uSet b)) p (.uNotifyRoot b (y.st.cfgWrites + 1))) p .uClear) p
+                          (.uNotify y.st.stores) } := by
+    simp [step, bundleStored, bundleAnnounced]
   rw [e2, stepN_succ]
-  have e3 : step { y with st := clearWorkload { y.st with cfg := b, events := y.st.events ++ [Ev.rootca] },
-                          procs := upd (upd (upd y.procs p (.uSet b)) p .uClear) p (.uNotify y.st.stores) } p i =
-      { y with st := notifyWorkload (clearWorkload { y.st with cfg := b, events := y.st.events ++ [Ev.rootca] }),
-               procs := upd (upd (upd (upd y.procs p (.uSet b)) p .uClear) p (.uNotify y.st.stores)) p (.uDone true) } := by
+  have e3 : step { y with st := clearWorkload (bundleAnnounced (bundleStored y.st b)),
+                          procs := upd (upd (upd (upd y.procs p (.uSet b)) p (.uNotifyRoot b (y.st.cfgWrites + 1))) p .uClear) p
+                                     (.uNotify y.st.stores) } p i =
+      { y with st := notifyWorkload (clearWorkload (bundleAnnounced (bundleStored y.st b))),
+               procs := upd (upd (upd (upd (upd y.procs p (.uSet b)) p (.uNotifyRoot b (y.st.cfgWrites + 1))) p .uClear) p
+                          (.uNotify y.st.stores)) p (.uDone true) } := by
     simp [step]
   rw [e3, stepN_uDone i (c := true) (by simp)]
   simp
 
-/-- ... in that order: `ROOTCA` is announced first, the `default` callback comes after the cache was
-    emptied and finds it empty. -/
+/-- ... in that order: the bundle is stored, `ROOTCA` is announced with the new bundle in place, the
+    `default` callback comes after the cache was emptied and finds it empty. -/
 theorem update_bundle_events {y : Sys} {p : Nat} (b : List Nat) (i : Input) (hp : y.procs p = .idle) (hne : y.st.cfg ≠ b) :
-    (seqOp y p (.update b) i).st.events = y.st.events ++ [Ev.rootca, Ev.workload true] ∧
+    (seqOp y p (.update b) i).st.events = y.st.events ++ [Ev.rootca true, Ev.workload true] ∧
     (seqOp y p (.update b) i).st.workload = none := by
   rw [(update_bundle_changed b i hp hne).1]
-  simp [notifyWorkload, clearWorkload]
+  simp [notifyWorkload, clearWorkload, bundleAnnounced, bundleStored]
 
 theorem update_bundle_same {y : Sys} {p : Nat} (i : Input) (hp : y.procs p = .idle) :
     (seqOp y p (.update y.st.cfg) i).st = y.st ∧ (seqOp y p (.update y.st.cfg) i).procs p = .uDone false := by
@@ -789,8 +952,8 @@ example :
     let y := run (Sys.init ⟨1, 2⟩ ⟨0, 1⟩)
       [.spawn 0 (.gen .workload), .spawn 1 (.gen .workload), .step 0 (okIn 0 0 []), .step 1 (okIn 0 0 []),
        .step 0 (okIn 0 0 []), .step 1 (okIn 0 0 []), .step 0 (okIn 0 0 []), .step 0 (okIn 0 0 []), .step 0 (okIn 0 0 []),
-       .step 0 (okIn 0 0 []), .step 0 (okIn 0 0 []), .step 0 (okIn 0 0 []), .step 1 (okIn 1 0 []), .step 1 (okIn 1 0 []),
-       .step 1 (okIn 1 0 [])]
+       .step 0 (okIn 0 0 []), .step 0 (okIn 0 0 []), .step 0 (okIn 0 0 []), .step 0 (okIn 0 0 []), .step 0 (okIn 0 0 []),
+       .step 1 (okIn 1 0 []), .step 1 (okIn 1 0 []), .step 1 (okIn 1 0 [])]
     y.st.caCalls = 1 ∧ y.st.okSinceClear = 1 ∧ y.st.queue.length = 1 ∧
     y.procs 0 = .gDone { ok := true, key := some 0, cert := some 0, root := some [0] } ∧
     y.procs 1 = .gDone { ok := true, key := some 0, cert := some 0 } ∧
@@ -805,6 +968,6 @@ example :
     let y4 := seqOp y3 4 (.timer 1) {}
     y2.st.queue.length = 2 ∧ y3.procs 3 = .tDone 0 false ∧ y3.st.workload = y2.st.workload ∧
     y4.procs 4 = .tDone 1 true ∧ y4.st.workload = none ∧
-    y4.st.events = [Ev.rootca, Ev.rootca, Ev.workload true, Ev.workload true] := by decide
+    y4.st.events = [Ev.rootca true, Ev.rootca true, Ev.workload true, Ev.workload true] := by decide
 
 end IstioModel.C18
